@@ -46,6 +46,10 @@ pub struct Case {
     /// honours): 0 = the default configuration
     #[serde(default)]
     pub own: u32,
+    /// preparatory state of the session before the traffic starts: 0 fresh (as configured by
+    /// `own`), 1 connected, 2 publishing, 3 playing (default configuration)
+    #[serde(default)]
+    pub prep: u8,
     pub w: u32,
     pub prefix: Vec<Item>,
     pub body: Vec<Item>,
@@ -77,8 +81,48 @@ use crate::refs::amf0::V;
 
 pub fn eval(c: &Case) -> Verdict {
     let w0 = c.w.max(1);
+    // the session under test (and the peer encoder in step with it)
+    use crate::props::c03::{self, Sess, Target};
+    let mut outdec = OutDec::new();
+    let (mut sess, mut enc) = if c.prep % 4 == 0 {
+        if c.server {
+            let (s, init) = match ServerSession::new({ let mut cfg = ServerSessionConfig::new(); if c.own != 0 { cfg.window_ack_size = c.own; } cfg }) {
+                Ok(x) => x,
+                Err(e) => vfail!("ServerSession::new failed: {:?}", e),
+            };
+            for (b, d) in split_server(init).packets {
+                if let Err(e) = outdec.packet(&b, d) {
+                    vfail!("initial server packets undecodable: {}", e);
+                }
+            }
+            (Sess::S(s), PeerEnc::new())
+        } else {
+            let (s, init) = match ClientSession::new({ let mut cfg = ClientSessionConfig::new(); if c.own != 0 { cfg.window_ack_size = c.own; } cfg }) {
+                Ok(x) => x,
+                Err(e) => vfail!("ClientSession::new failed: {:?}", e),
+            };
+            for (b, d) in split_client(init).packets {
+                if let Err(e) = outdec.packet(&b, d) {
+                    vfail!("initial client packets undecodable: {}", e);
+                }
+            }
+            (Sess::C(s), PeerEnc::new())
+        }
+    } else {
+        let target = if c.server { Target::Server(c.prep % 4) } else { Target::Client(c.prep % 4) };
+        match c03::prepare_recording(&target) {
+            Ok((s, e, rec)) => {
+                for (b, d) in rec {
+                    if let Err(e) = outdec.packet(&b, d) {
+                        vfail!("packets emitted while the session was prepared are undecodable: {}", e);
+                    }
+                }
+                (s, e)
+            }
+            Err(e) => return Verdict::Harness(format!("cannot prepare the session: {}", e)),
+        }
+    };
     // build the inbound stream and remember where each window message ends
-    let mut enc = PeerEnc::new();
     let mut stream: Vec<u8> = Vec::new();
     let mut windows: Vec<(usize, u32)> = Vec::new(); // (offset one past the last byte, W)
     let mut failing: Vec<(usize, usize)> = Vec::new(); // byte spans of the messages answered with Err
@@ -112,35 +156,6 @@ pub fn eval(c: &Case) -> Verdict {
     // completes it carries nothing else (nothing but a due Acknowledgement can then be lost with the Err)
     let mut forced: Vec<usize> = failing.iter().flat_map(|(a, b)| [*a, *b]).collect();
     forced.sort_unstable();
-    // the session under test
-    enum Sess {
-        S(ServerSession),
-        C(ClientSession),
-    }
-    let mut outdec = OutDec::new();
-    let mut sess = if c.server {
-        let (s, init) = match ServerSession::new({ let mut cfg = ServerSessionConfig::new(); if c.own != 0 { cfg.window_ack_size = c.own; } cfg }) {
-            Ok(x) => x,
-            Err(e) => vfail!("ServerSession::new failed: {:?}", e),
-        };
-        for (b, d) in split_server(init).packets {
-            if let Err(e) = outdec.packet(&b, d) {
-                vfail!("initial server packets undecodable: {}", e);
-            }
-        }
-        Sess::S(s)
-    } else {
-        let (s, init) = match ClientSession::new({ let mut cfg = ClientSessionConfig::new(); if c.own != 0 { cfg.window_ack_size = c.own; } cfg }) {
-            Ok(x) => x,
-            Err(e) => vfail!("ClientSession::new failed: {:?}", e),
-        };
-        for (b, d) in split_client(init).packets {
-            if let Err(e) = outdec.packet(&b, d) {
-                vfail!("initial client packets undecodable: {}", e);
-            }
-        }
-        Sess::C(s)
-    };
     // ModelAck
     let mut known: Option<u32> = None;
     let mut counter: u64 = 0;
@@ -329,13 +344,14 @@ fn case_for_w(wstrat: BoxedStrategy<u32>) -> BoxedStrategy<Case> {
             (
                 Just(server),
                 prop_oneof![3 => Just(0u32), 1 => Just(w), 1 => Just((w / 2).max(1)), 1 => Just(w.saturating_mul(2)), 1 => gen::pick(&[1u32, 100, 1000, 65_536])],
+                prop_oneof![2 => Just(0u8), 1 => 1u8..4],
                 Just(w),
                 proptest::collection::vec(item(w.min(400)), 0..4),
                 proptest::collection::vec(body_item, 2..30),
                 proptest::collection::vec(call_size(), 0..60),
             )
         })
-        .prop_map(|(server, own, w, prefix, body, calls)| Case { server, own, w, prefix, body, calls })
+        .prop_map(|(server, own, prep, w, prefix, body, calls)| Case { server, own, prep, w, prefix, body, calls })
         .boxed()
 }
 
